@@ -105,9 +105,7 @@ func (c *Ctx) acc(name, t string) string {
 		}
 	}
 	switch u {
-	case "nilptr":
-		return "0"
-	case "nilslice":
+	case "nilptr", "nilslice":
 		return "0"
 	}
 	return "(" + name + " " + t + ")"
@@ -191,7 +189,7 @@ func (c *Ctx) rd(h, obj, idx string) string { return c.rdIdx(c.rdObj(h, obj), id
 func (c *Ctx) wrObj(st *State, key, obj, arr string) {
 	h := c.heap(st, key)
 	n := c.fresh(heapKey(key))
-	c.cmds = append(c.cmds, fmt.Sprintf("(define-fun %s () %s (store %s %s %s))", n, c.heapSortOf(key), h, obj, arr))
+	c.cmds = append(c.cmds, fmt.Sprintf("(declare-fun %s () %s)", n, c.heapSortOf(key)), fmt.Sprintf("(assert (= %s (store %s %s %s)))", n, h, obj, arr))
 	c.heapDefs[n] = heapDef{h, obj, arr}
 	st.heaps[key] = n
 }
